@@ -76,7 +76,12 @@ func CoqMessage(m *sarama.Message) string {
 	if m.Set != nil {
 		set = cf.Some(CoqSet(m.Set))
 	}
-	return fmt.Sprintf("(mkMsg %s %s %s %s %s %s %s)", cf.Z(int64(m.Codec)), cf.Bool(m.LogAppendTime), oBytes(m.Key), oBytes(m.Value), set, cf.Z(int64(m.Version)), CoqTime(m.Timestamp))
+	val := m.Value
+	if val == nil && m.Codec != 0 && m.Set != nil {
+		// the codec library returned a nil slice for an empty output (nil vs empty of what a codec returns is not modelled)
+		val = []byte{}
+	}
+	return fmt.Sprintf("(mkMsg %s %s %s %s %s %s %s)", cf.Z(int64(m.Codec)), cf.Bool(m.LogAppendTime), oBytes(m.Key), oBytes(val), set, cf.Z(int64(m.Version)), CoqTime(m.Timestamp))
 }
 
 func CoqSet(s *sarama.MessageSet) string {
@@ -112,10 +117,10 @@ func CoqControl(c *sarama.ControlRecord) string {
 // ---------------------------------------------------------------- compression tables
 
 type TabEntry struct {
-	Codec int8
-	In    []byte
-	Out   []byte // nil with Err = the call failed
-	Err   bool
+	Codec int8   `json:"codec"`
+	In    []byte `json:"in"`
+	Out   []byte `json:"out"` // nil with Err = the call failed
+	Err   bool   `json:"err"`
 }
 
 type Table struct {
